@@ -704,6 +704,24 @@ static std::string run(int which) {
 static const int kProbes = 8;
 }  // namespace wide
 
+// ---- converting construction / assignment picks the alternative the argument converts to ------------
+// (the library documents that a pointer does not select a bool alternative)
+namespace conv {
+static std::string run(int which) {
+  using VS = nop::Variant<bool, std::string>;
+  using VI = nop::Variant<bool, int, std::string>;
+  switch (which) {
+    case 0: { VS v("abc"); if (!v.is<std::string>() || *v.get<std::string>() != "abc") return "index-mismatch: Variant<bool,std::string> constructed from a string literal holds alternative " + std::to_string(v.index()) + ", not the string"; return ""; }
+    case 1: { VS v; v = "abc"; if (!v.is<std::string>() || *v.get<std::string>() != "abc") return "index-mismatch: Variant<bool,std::string> assigned a string literal holds alternative " + std::to_string(v.index()); return ""; }
+    case 2: { const char* p = "xyz"; VS a(p); VS b; b = p; if (a.index() != b.index() || !a.is<std::string>()) return "index-mismatch: construction from const char* selects alternative " + std::to_string(a.index()) + ", assignment selects " + std::to_string(b.index()); return ""; }
+    case 3: { VS v(true); if (!v.is<bool>() || *v.get<bool>() != true) return "index-mismatch: Variant<bool,std::string> constructed from true holds alternative " + std::to_string(v.index()); return ""; }
+    case 4: { VI v(7); if (!v.is<int>() || *v.get<int>() != 7) return "index-mismatch: Variant<bool,int,std::string> constructed from 7 holds alternative " + std::to_string(v.index()); return ""; }
+    default: { VI v(std::string("s")); VI w("lit"); if (!v.is<std::string>() || !w.is<std::string>()) return "index-mismatch: Variant<bool,int,std::string> constructed from a string holds alternative " + std::to_string(w.index()); return ""; }
+  }
+}
+static const int kProbes = 6;
+}  // namespace conv
+
 int main(int argc, char** argv) {
   Args a = Args::parse(argc, argv);
   Report rep; rep.property = "C12"; rep.tier = a.tier; rep.seed = a.seed; rep.out_path = a.out; rep.unit = a.unit.empty() ? "variant" : a.unit;
@@ -722,6 +740,11 @@ int main(int argc, char** argv) {
     while ((ch = fgetc(f)) != EOF) { if (ch == '\n') { if (!cur.empty() && cur[0] != '#') text = cur; cur.clear(); } else cur += (char)ch; }
     if (!cur.empty() && cur[0] != '#') text = cur;
     fclose(f);
+    if (text.compare(0, 14, "prop=C12 conv=") == 0) {
+      std::string m = conv::run(atoi(text.c_str() + 14));
+      if (!m.empty()) { printf("REPLAY-FAIL %s\n", m.c_str()); fflush(stdout); _exit(1); }
+      printf("REPLAY-PASS\n"); return 0;
+    }
     if (text.compare(0, 14, "prop=C12 wide=") == 0) {
       std::string m = wide::run(atoi(text.c_str() + 14));
       if (!m.empty()) { printf("REPLAY-FAIL %s\n", m.c_str()); fflush(stdout); _exit(1); }
@@ -743,6 +766,14 @@ int main(int argc, char** argv) {
       std::string m = wide::run(w);
       if (!m.empty()) rep.fail(m, rep.current_case, "C12|wide|" + m.substr(0, m.find(':')));
       else { rep.label("wide-variant-probes"); rep.nontriv(hash_str(rep.current_case)); }
+    }
+  }
+  if (a.shard == 0) {
+    for (int w = 0; w < conv::kProbes; w++) {
+      rep.current_case = "prop=C12 conv=" + std::to_string(w); rep.evaluations++;
+      std::string m = conv::run(w);
+      if (!m.empty()) rep.fail(m, rep.current_case, "C12|conv|" + std::to_string(w));
+      else rep.label("converting-construction-probes");
     }
   }
   const std::string only = a.get("only");   // "", "exhaustive" or "random" (development aid)
